@@ -100,3 +100,13 @@ pub const ALL_UNITS: [Unit; 10] = [
     Unit::Microsecond,
     Unit::Nanosecond,
 ];
+
+/// A time zone from its text without making the harness depend on the identifier parser being right: a name
+/// that the parser refuses is wrapped as it is (the parser itself is judged by C11 / C12).
+pub fn zone_of(text: &str) -> Option<temporal_rs::TimeZone> {
+    match temporal_rs::TimeZone::try_from_str(text) {
+        Ok(z) => Some(z),
+        Err(_) if text.chars().next().is_some_and(|c| c.is_ascii_alphabetic()) => Some(temporal_rs::TimeZone::IanaIdentifier(text.to_string())),
+        Err(_) => None,
+    }
+}
